@@ -12,12 +12,16 @@
 #ifndef CAPMAX
 #define CAPMAX 64
 #endif
+#ifndef NAMEMAX
+#define NAMEMAX 24       /* the first variable's name has a symbolic length 1..NAMEMAX (long names: a token longer than any fixed scratch size) */
+#endif
 
 struct scen {
         unsigned char vt[3], vds[3], vacc[3], vnamed[3];
         unsigned char desc;
         unsigned char cap;
         unsigned char crflag;
+        unsigned char nlen;              /* length of the first variable's name */
 };
 #define SCEN_DEFINED
 #include "common.h"
@@ -35,6 +39,7 @@ static struct {
 static uint8_t G_buf[CAPMAX];
 static uint8_t G_data[8];
 static char EXP[96];
+static char G_name0[NAMEMAX + 1];
 static unsigned exp_n;
 
 static int io_write(char c) { (void)c; return 1; }
@@ -45,12 +50,14 @@ static void put(const char *s) { while (*s) { if (exp_n < 95) EXP[exp_n] = *s; e
 
 static void scen_run(void)
 {
-        static const char *vnames[3] = { "x", "yy", "z" };
+        const char *vnames[3] = { G_name0, "yy", "z" };
         unsigned v, i, cap = S.cap;
         int unsupported = 0, fits, ok;
 
         ASSUME(cap >= 6 && cap <= CAPMAX);
         ASSUME(S.desc <= 1 && S.crflag <= 1);
+        ASSUME(S.nlen >= 1 && S.nlen <= NAMEMAX);
+        for (i = 0; i < NAMEMAX + 1; i++) G_name0[i] = (i < S.nlen) ? 'n' : 0;
         for (v = 0; v < NV; v++) {
                 ASSUME(S.vt[v] <= 4 && S.vacc[v] <= 2 && S.vnamed[v] <= 1);
                 ASSUME(S.vds[v] >= 1 && S.vds[v] <= 8);
@@ -128,6 +135,7 @@ static void scen_run(void)
         WITNESS(!ok && !unsupported && exp_n == cap, "one-byte-short");
         WITNESS(ok && S.desc && exp_n > 30, "long-with-description");
         WITNESS(unsupported, "unsupported-width");
+        WITNESS(ok && S.vnamed[0] && S.nlen >= 20, "name-of-20-characters-fits");
 }
 
 #ifndef __CPROVER__
@@ -142,6 +150,7 @@ static void scen_sample(void)
         }
         S.desc = (unsigned char)rnd(2);
         S.crflag = (unsigned char)rnd(2);
+        S.nlen = (unsigned char)(rnd(2) ? 1 + rnd(3) : 1 + rnd(NAMEMAX));
         S.cap = (unsigned char)(6 + rnd(CAPMAX - 5));
 }
 #endif
